@@ -542,10 +542,59 @@ def conv_systematic(tier):
                 y = mk_yaml(decl, [expr], part={"O": {"Q": [pstr], "W": ["follow(Q)"]}}, lo={"O": lo})
                 cf = [{"Q": Q, "S": S, "W": wext(Q, S)} for Q, S in ([(4, 2), (5, 3)] if q else [(3, 2), (4, 2), (5, 3)])]
                 out.append({"yaml": y, "configs": cf, "family": fam, "key": y, "coeffs": (a, b), "lo": lo})
+    # masked convolution: a further operand indexed directly by the (partitioned) output rank, co-iterated with the projected input
+    for a, b in ((1, 1), (2, 1)):
+        expr = "O[q] = I[%s + %s] * F[s] * B[q]" % (t(a, "q"), t(b, "s"))
+        decl = {"I": ["W"], "F": ["S"], "B": ["Q"], "O": ["Q"]}
+        for lo in (["Q", "S"], ["W", "Q"], None):
+            y = mk_yaml(decl, [expr], lo={"O": lo} if lo else None)
+            out.append({"yaml": y, "configs": [{"Q": 4, "S": 2, "W": a * 3 + b + 1}], "family": "affine-conv1-mask", "key": y, "coeffs": (a, b)})
+        for lo in (["Q1", "Q0", "S"], ["Q1", "S", "Q0"], ["Q1", "W0", "Q0"]):
+            y = mk_yaml(decl, [expr], part={"O": {"Q": ["uniform_shape(2)"], "W": ["follow(Q)"]}}, lo={"O": lo})
+            out.append({"yaml": y, "configs": [{"Q": 4, "S": 2, "W": a * 3 + b + 1}, {"Q": 6, "S": 2, "W": a * 5 + b + 1}], "family": "conv-us-mask", "key": y,
+                        "coeffs": (a, b), "lo": lo, "cap": 60})
     # two levels on the index-math rank (known finding KF-CONV-2LEVEL; kept so that the finding is re-derived on every run)
     for lo in (["Q2", "Q1", "W0", "Q0"], ["Q2", "Q1", "S", "Q0"], ["S", "Q2", "Q1", "Q0"]):
         y = mk_yaml({"I": ["W"], "F": ["S"], "O": ["Q"]}, ["O[q] = I[q + s] * F[s]"], part={"O": {"Q": ["uniform_shape(4)", "uniform_shape(2)"], "W": ["follow(Q)"]}}, lo={"O": lo})
         out.append({"yaml": y, "configs": [{"Q": 8, "S": 2, "W": 9}], "family": "conv-us2", "key": y, "coeffs": (1, 1), "lo": lo, "cap": 30})
+    return out
+
+
+
+def conv_mask_core():
+    """Deterministic core: index arithmetic over a shape-partitioned rank with a further operand that is indexed directly by that rank (not
+    projected), one-dimensional or carrying further ranks (flattened or not, so that its fiber at the partitioned rank is produced by
+    a swizzle / flatten later than the projected input's)."""
+    out = [dict(sp) for sp in conv_systematic("quick") if sp["family"] == "conv-us-mask"]
+    cases = [("O[n, m, q] = I[q + s] * F[s] * G[n, m, q]", {"I": ["W"], "F": ["S"], "G": ["N", "M", "Q"], "O": ["N", "M", "Q"]}, {"(N, M)": ["flatten()"]},
+              (["Q1", "NM", "S", "Q0"], ["Q1", "S", "NM", "Q0"], ["NM", "Q1", "S", "Q0"], ["Q1", "NM", "Q0", "S"]), {"N": 2, "M": 2}),
+             ("O[n, q] = I[q + s] * F[s] * G[n, q]", {"I": ["W"], "F": ["S"], "G": ["N", "Q"], "O": ["N", "Q"]}, {},
+              (["Q1", "N", "S", "Q0"], ["Q1", "S", "N", "Q0"], ["N", "Q1", "S", "Q0"], ["Q1", "N", "W0", "Q0"]), {"N": 2}),
+             ("O[q, n] = I[q + s] * F[s] * G[q, n]", {"I": ["W"], "F": ["S"], "G": ["Q", "N"], "O": ["Q", "N"]}, {},
+              (["Q1", "S", "Q0", "N"], ["Q1", "Q0", "S", "N"]), {"N": 2})]
+    for expr, decl, extra, los, ext in cases:
+        for lo in los:
+            part = dict({"Q": ["uniform_shape(2)"], "W": ["follow(Q)"]}, **extra)
+            y = mk_yaml(decl, [expr], part={"O": part}, lo={"O": lo})
+            out.append({"yaml": y, "configs": [dict({"Q": 4, "S": 2, "W": 5}, **ext)], "family": "conv-us-mask", "key": y, "coeffs": (1, 1), "lo": lo, "cap": 40})
+    return out
+
+
+
+def double_flat_core():
+    """Deterministic core: two flattenings of one tensor (the second one of the lower half of a shape-split rank, order-preserving or
+    not), one split and one flattening that needs a real swizzle, a flattening of non-adjacent ranks."""
+    out = []
+    d4 = {"A": ["K", "M", "N", "O"], "B": ["K", "M", "N", "O"], "Z": ["K", "M", "N", "O"]}
+    e4 = "Z[k, m, n, o] = A[k, m, n, o] * B[k, m, n, o]"
+    cases = [(d4, e4, {"(K, M)": ["flatten()"], "N": ["uniform_shape(2)"], "(N0, O)": ["flatten()"]}, ["KM", "N1", "N0O"]),
+             (d4, e4, {"(K, M)": ["flatten()"], "(N, O)": ["flatten()"]}, ["KM", "NO"]),
+             (d4, e4, {"N": ["uniform_shape(2)"], "(M, N0)": ["flatten()"]}, ["K", "N1", "MN0", "O"]),
+             (d4, e4, {"(M, N)": ["flatten()"], "K": ["uniform_shape(2)"], "(K0, O)": ["flatten()"]}, ["K1", "MN", "K0O"]),
+             ({"A": ["M", "K", "N"], "Z": ["M", "K", "N"]}, "Z[m, k, n] = A[m, k, n]", {"(M, N)": ["flatten()"]}, ["K", "MN"])]
+    for decl, expr, part, lo in cases:
+        y = mk_yaml(decl, [expr], part={"Z": part}, lo={"Z": lo})
+        out.append({"yaml": y, "configs": [{r: (3 if r == "N" and len(decl["Z"]) == 4 else 2) for r in decl["Z"]}], "family": "double-flatten-core", "key": y, "cap": 16})
     return out
 
 
